@@ -236,16 +236,16 @@ def dir_writer_stage(work, rep, ev, tier, rng):
     listings around every limit, and each is written by the real directory writer and decoded again (harness/replay_dirwr.c)."""
     cfg = work + "/dw.cfg"
     small = {"M": 2, "L": 2, "Cap": 12, "Hdr": 2, "Ent": 2, "MaxEntries": 3 if tier == "quick" else 4, "Emit": False, "DeltaLimit": '"both"', "CountLimit": '"M"',
-             "BlockChecked": True, "SizeFromOffset": True}
+             "BlockChecked": True, "SizeFromOffset": True, "IndexAfterHeader": False}
     sdefs = {"Blocks": "{0, 1}", "Nums": "{1, 2, 3, 4, 5, 6}", "NameLens": "{1, 3}", "Offsets": "{0, 5, 11}", "Explicit": "{}"}
-    INV = ["RoundTrip", "CountsOK", "OneBlockPerRun", "RunInsideBlock"]
+    INV = ["RoundTrip", "CountsOK", "OneBlockPerRun", "RunInsideBlock", "IndexPointsAtHeaders"]
     write_cfg(cfg, spec="Spec", constants=small, defs=sdefs, invariants=INV, deadlock=False)
     r = run_tlc("DirWriter", cfg, workers=8, timeout=1800)
     ev.tlc(r, "DirWriter small constants")
     if not r["ok"]:
         print("MODEL-FAILURE: DirWriter violates %s" % r["violated"])
         return None
-    for dev in ({"DeltaLimit": '"plusone"'}, {"CountLimit": '"Mplus1"'}, {"BlockChecked": False}, {"SizeFromOffset": False}):
+    for dev in ({"DeltaLimit": '"plusone"'}, {"CountLimit": '"Mplus1"'}, {"BlockChecked": False}, {"SizeFromOffset": False}, {"IndexAfterHeader": True}):
         write_cfg(cfg, spec="Spec", constants=dict(small, MaxEntries=3, **dev), defs=sdefs, invariants=INV, deadlock=False)
         r = run_tlc("DirWriter", cfg, workers=8, timeout=600)
         ev.tlc(r, "dev DirWriter %s" % dev)
@@ -280,7 +280,7 @@ def dir_writer_stage(work, rep, ev, tier, rng):
             ents.append([r3.choice([0, 0, 0, 1]), num, r3.choice([1, 2, 8, 60, 256])])
         fam.append((r3.choice([0, 100, 8000, 8185]), ents))
     lit = "{" + ", ".join("[off |-> %d, ents |-> <<%s>>]" % (off, ", ".join("[blk |-> %d, num |-> %d, nlen |-> %d]" % tuple(e) for e in ents)) for off, ents in fam) + "}"
-    real = {"M": 256, "L": 32767, "Cap": 8192, "Hdr": 12, "Ent": 8, "MaxEntries": 1, "Emit": True, "DeltaLimit": '"both"', "CountLimit": '"M"', "BlockChecked": True, "SizeFromOffset": True}
+    real = {"M": 256, "L": 32767, "Cap": 8192, "Hdr": 12, "Ent": 8, "MaxEntries": 1, "Emit": True, "DeltaLimit": '"both"', "CountLimit": '"M"', "BlockChecked": True, "SizeFromOffset": True, "IndexAfterHeader": False}
     rdefs = {"Blocks": "{0}", "Nums": "{1}", "NameLens": "{1}", "Offsets": "{0}", "Explicit": lit}
     write_cfg(cfg, spec="Spec", constants=real, defs=rdefs, invariants=INV + ["EmitOK"], deadlock=False)
     r = run_tlc("DirWriter", cfg, workers=4, timeout=3000, heap="12g")
@@ -333,7 +333,13 @@ def dir_writer_stage(work, rep, ev, tier, rng):
                         what = ("dirwriter-count", "%s: a header announces a count outside 1..256" % desc)
                     elif g["consumed"] != g["size"]:
                         what = ("dirwriter-size", "%s: the directory size %d differs from the %d bytes of its headers and entries" % (desc, g["size"], g["consumed"]))
-                    elif [(x["count"], x["blk"], x["base"]) for x in g["runs"]] != [(x["count"], x["blk"], x["base"]) for x in c["runs"]]:
+                    elif any(ix[1] < 0 for ix in g.get("index", [])) or [ix[1] for ix in g.get("index", [])] != [x["blkno"] for x in c["index"]][:len(g.get("index", []))] and \
+                            [(x["count"], x["blk"], x["base"]) for x in g["runs"]] == [(x["count"], x["blk"], x["base"]) for x in c["runs"]]:
+                        bad = next((k for k, ix in enumerate(g["index"]) if ix[1] != c["index"][k]["blkno"]), 0)
+                        what = ("dirwriter-index", "%s: index entry %d (header %d bytes into the listing) names metadata block %d, its header starts in block %d"
+                                % (desc, bad + 1, g["index"][bad][0], g["index"][bad][1], c["index"][bad]["blkno"]))
+                    elif [(x["count"], x["blk"], x["base"]) for x in g["runs"]] != [(x["count"], x["blk"], x["base"]) for x in c["runs"]] or \
+                            [list(ix) for ix in g.get("index", [])] != [[x["index"], x["blkno"], x["nlen"]] for x in c["index"]] or g.get("entry_count") != len(ents):
                         drift += 1
                 if what and what[0] not in seen:
                     seen.add(what[0])
